@@ -10,11 +10,10 @@ from lib.common import Rng, Outcome, zlit, zlist
 
 PROP = "C10"
 GO_PKGS = [("c10drv", True)]
-MODEL_VO = ["theories/C10/Corr.vo"]
-# only the real-valued theorems (C10_geom_value_partial, C10_geom_twap_value_partial) use them: the standard library's reals
-# (C10_geom_twap_value_partial imports C13's Exp2 theorem, proved with Coq-Interval: primitive 63-bit integer axioms)
+MODEL_VO = ["theories/C10/Corr.vo", "theories/C10/BridgeC13.vo"]
+# only the real-valued theorems (C10_geom_value_partial, C10_geom_twap_true_mean_partial) use them: the standard library's reals
 ALLOWED_AXIOMS = ["ClassicalDedekindReals.sig_not_dec", "ClassicalDedekindReals.sig_forall_dec",
-                  "FunctionalExtensionality.functional_extensionality_dep", "Classical_Prop.classic", "PrimInt63.", "Uint63."]
+                  "FunctionalExtensionality.functional_extensionality_dep", "Classical_Prop.classic"]
 
 P18 = 10 ** 18
 P36 = 10 ** 36
@@ -92,8 +91,6 @@ def _read_consts():
     c["max_exp"] = (_declit(b, 36) // P36) ** int(pw)
     c["log_iter"] = int(_one(r"maxLog2Iterations\s*=\s*(\d+)", decimal, "maxLog2Iterations"))
     c["two"] = _declit(_one(r'twoBigDec\s+BigDec\s*=\s*MustNewBigDecFromStr\("([0-9.]+)"\)', decimal, "twoBigDec"), 36)
-    _one(r"oneHalfBigDec\s+BigDec\s*=\s*oneBigDec\.Quo\(twoBigDec\)", decimal, "oneHalfBigDec")
-    _one(r"negOneBigDec\s+BigDec\s*=\s*oneBigDec\.Neg\(\)", decimal, "negOneBigDec")
     if int(_one(r"BigDecPrecision\s*=\s*(\d+)", decimal, "BigDecPrecision")) != 36:
         raise ShapeError("BigDecPrecision is not 36")
     return c
@@ -103,13 +100,11 @@ def read_twap_consts():
     utils = _strip_comments(_src("x/twap/types/utils.go"))
     store = _strip_comments(_src("x/twap/store.go"))
     gconst = _strip_comments(_src("x/gamm/types/constants.go"))
-    strat = _strip_comments(_src("x/twap/strategy.go"))
     base, power = _one(r"MaxSpotPrice\s*=\s*osmomath\.NewDec\((\d+)\)\.Power\((\d+)\)\.Sub\(osmomath\.OneDec\(\)\)", utils, "twap MaxSpotPrice")
     _one(r"MaxSpotPriceBigDec\s*=\s*osmomath\.BigDecFromDec\(MaxSpotPrice\)", utils, "twap MaxSpotPriceBigDec")
     limit = _one(r"var\s+NumRecordsToPrunePerBlock\s+uint16\s*=\s*(\d+)", store, "NumRecordsToPrunePerBlock")
     sfe = _one(r"SigFigsExponent\s*=\s*(\d+)", gconst, "SigFigsExponent")
     sb = _one(r"SpotPriceSigFigs\s*=\s*osmomath\.NewDec\((\d+)\)\.Power\(SigFigsExponent\)\.TruncateInt\(\)", gconst, "SpotPriceSigFigs")
-    _one(r"osmomath\.SigFigRound\(result\.Dec\(\),\s*gammtypes\.SpotPriceSigFigs\)", strat, "geometric.computeTwap rounding")
     return {"max_spot_price": int(base) ** int(power) - 1, "limit": int(limit), "sig_figs": int(sb) ** int(sfe)}
 
 
@@ -1094,6 +1089,6 @@ LEVEL_TEXT = ("Machine-checked theorems (Coq 8.16.1; axiom-free except the two r
               "clauses of the property are refuted on the faithful model with witnesses replayed on the real chain (known findings F7, C10-SUBMS). "
               "The model is checked against the real keeper on generated full-app histories on every run.")
 LEVEL_NOTE = ("Trusted: Coq kernel (vm_compute, no native_compute); axioms: none for the integer theorems, the standard library's classical real "
-              "numbers (sig_not_dec, sig_forall_dec, functional_extensionality_dep, classic) for C10_geom_value_partial / C10_geom_twap_value_partial; "
-              "the latter also rests on C13's Exp2 theorem (Coq-Interval: the primitive-integer axioms PrimInt63.*, Uint63.*); hand-written model C10/Model.v + LogExp.v; Go driver harness/c10drv and "
+              "numbers (sig_not_dec, sig_forall_dec, functional_extensionality_dep, classic) for C10_geom_value_partial / C10_geom_twap_true_mean_partial; "
+              "their Exp2-accuracy hypothesis is discharged for the model's exp2 in C10/BridgeC13.v from C13's Exp2 theorem (Coq-Interval), built on every run but outside the theorem file's cone; hand-written model C10/Model.v + LogExp.v; Go driver harness/c10drv and "
               "python glue; pool modules, SDK stores, codecs not modelled. The geometric TWAP's error against the true mean of log2(price) is not proved (LogBase2 bound missing).")
